@@ -161,13 +161,20 @@ def run_histories(ck, alphabet, depth, count, rng, precs=("d",), threads=(1, 2, 
             # and let the others exercise the transposed solve instead so that the rest of the history is validated
             h = [dict(c, trans="T") if c.get("trans") == "C" else c for c in h]
         items.append((i, h, prec, api.script_of(h, rng, nmax=nmax, threads=threads, pert=pert, **kw)))
+    # every other history runs in the configuration of the repository's own CMake build (USE_VENDOR_BLAS: the supernodal kernels of the
+    # factorization and of the solves go to the BLAS -- other branches of 33 source files than with the library's own dense kernels)
+    def var_of(i):
+        return "vendor" if (variant == "verif" and i % 2 == 1) else variant
     for p in set(precs):
         api.driver(p, variant)     # build before the parallel phase
+        if variant == "verif":
+            api.driver(p, "vendor")
+    ck.notes["histories_in_the_USE_VENDOR_BLAS_configuration" + tag] = sum(1 for a in items if var_of(a[0]) == "vendor")
     tlc.stage(wd)
 
     def one(a):
         i, h, prec, txt = a
-        st, op, err = api.run_script(txt, wd, "h%d" % i, prec=prec, variant=variant)
+        st, op, err = api.run_script(txt, wd, "h%d" % i, prec=prec, variant=var_of(i))
         v = api.validate_calls(wd, "h%d" % i, op) if st == "exit:0" else None
         if v is not None and tlc.inconclusive(v):
             v = api.validate_calls(wd, "h%dt" % i, op, timeout=600)       # the tool did not decide (load): once more, longer limit
@@ -182,7 +189,7 @@ def run_histories(ck, alphabet, depth, count, rng, precs=("d",), threads=(1, 2, 
         if st == "exit:0" and ck.pid in STACK_PROPS:
             sr, _ = api.validate_stack(wd, "h%d" % i, op)
         if st == "exit:0" and ck.pid in SOLVE_PROPS:
-            svrecs.append((i, solve.solve_records(op, cplx=prec in "cz", tag=i)))
+            svrecs.append((i, solve.solve_records(op, cplx=prec in "cz", tag=i, blas=1 if var_of(i) == "vendor" else 0)))
         return i, h, prec, txt, st, v, err, pv, sr
     svrecs = []
     results = list(common.pmap(one, items))
